@@ -11,3 +11,4 @@ int lemma_exchange_twice(struct variable_order *o, int v1, int v2)
 void h_vord_exchange(void) { struct variable_order *o; int w_v1 = nondet_int(), w_v2 = nondet_int(); ghost_g = nondet_size_t(); variable_order__exchange(o, w_v1, w_v2); CANARY(); }
 void h_vord_getters(void) { struct variable_order *o; int w_k = nondet_int(); lemma_vord_getters(o, w_k); CANARY(); }
 void h_vord_exchange_twice_is_identity(void) { struct variable_order *o; int w_v1 = nondet_int(), w_v2 = nondet_int(); ghost_g = nondet_size_t(); lemma_exchange_twice(o, w_v1, w_v2); CANARY(); }
+void h_vord_is_compatible_with(void) { struct variable_order *o, *p; _Bool w_same = nondet_bool(); ghost_g = nondet_size_t(); if (w_same) p = o; variable_order__is_compatible_with_order(o, p); CANARY(); }
